@@ -40,11 +40,32 @@ import re
 _ADDR = re.compile(r" object at 0x[0-9a-fA-F]+>")
 
 
+LIVE_ANNS = ["Optional[int]", "Optional[float]", "Optional[str]", "List[str]", "Optional[List[int]]", "Union[int, str]"]
+
+
+def live_src(r, name, form):
+    """source of a module holding one annotated definition (typing generics only: a plain class as annotation is
+    the recorded gen finding), documented in ReST style"""
+    ps = [("p%d" % k, r.choice(LIVE_ANNS)) for k in range(r.randint(2, 4))]
+    sig = ", ".join("%s: %s = None" % (n, a) for n, a in ps)
+    doc = "".join("    :param %s: the %s value\n" % (n, n) for n, _ in ps)
+    head = "from typing import List, Optional, Union\n\n\n"
+    if form == "function":
+        return head + 'def %s(image, %s):\n    """\n    Work on an image\n\n    :param image: the image\n%s    """\n    return image\n' % (name, sig, doc)
+    ind = doc.replace("    :param", "        :param")
+    return head + 'class %s(object):\n    """\n    A holder\n    """\n\n    def __init__(self, %s):\n        """\n        Make one\n\n%s        """\n        self.x = 1\n' % (name, sig, ind)
+
+
 def make_jobs(r, n):
     jobs = []
     for i in range(n):
         k = r.random()
-        if k < 0.5:
+        if k < 0.1:
+            # in-memory definitions: annotations are objects whose text is cleaned up by the parser
+            form = r.choice(["function", "function", "class"])
+            name = "live%d" % i if form == "function" else "Live%d" % i
+            jobs.append({"id": "j%d" % i, "kind": "parse_live", "form": form, "name": name, "src": live_src(r, name, form)})
+        elif k < 0.5:
             f = _announce_twice(r, defgen.gen_def(random.Random(r.randrange(1 << 30))))
             if r.random() < 0.2 and f["doc"]:
                 # PyTorch-style option list in a google docstring (read as a Literal: its member order must not vary)
